@@ -14,7 +14,7 @@ import textwrap
 from collections import Counter
 from harness import common, translate
 common.import_repo()
-from numba_scfg.core.datastructures.ast_transforms import AST2SCFG  # noqa: E402
+from numba_scfg.core.datastructures.ast_transforms import AST2SCFG, AST2SCFGTransformer  # noqa: E402
 
 LEVEL = "proof"
 
@@ -64,14 +64,32 @@ def abstract(nodes):
     return "".join(out)
 
 
-def outcome(src):
+def outcome(src, refusal=(NotImplementedError,)):
+    """The entry point on a fresh transformer, and then one transformer object asked several times
+    (both views, and again): every request must be refused - a refusal that only holds for the
+    first request lets a truncated graph out on the second."""
     try:
         AST2SCFG(src)
         return "accepted"
-    except NotImplementedError:
+    except refusal:
+        pass
+    except Exception as e:  # noqa: BLE001
+        return "crash:" + type(e).__name__
+    try:
+        tr = AST2SCFGTransformer(src)
+    except refusal:
         return "refused"
     except Exception as e:  # noqa: BLE001
         return "crash:" + type(e).__name__
+    for k, view in enumerate(("transform_to_ASTCFG", "transform_to_SCFG", "transform_to_ASTCFG", "transform_to_SCFG")):
+        try:
+            getattr(tr, view)()
+            return f"accepted-on-request-{k + 1}-of-one-transformer"
+        except refusal:
+            continue
+        except Exception as e:  # noqa: BLE001
+            return "crash:" + type(e).__name__
+    return "refused"
 
 
 def run(ctx):
@@ -100,13 +118,7 @@ def run(ctx):
     nonfn = [("non-function:assign-first", "x = 1\ndef f(a):\n    return a"), ("non-function:expression", "1 + 1")]
     nf_out = []
     for tag, src in nonfn:
-        try:
-            AST2SCFG(src)
-            nf_out.append((tag, "accepted"))
-        except (NotImplementedError, AssertionError):
-            nf_out.append((tag, "refused"))
-        except Exception as e:  # noqa: BLE001
-            nf_out.append((tag, "crash:" + type(e).__name__))
+        nf_out.append((tag, outcome(src, (NotImplementedError, AssertionError))))
     rep = drv.run(lines)
     violations, broken, mism = [], [], []
     bad = {}
